@@ -45,7 +45,10 @@ def step (s : S) (line : String) : S × String :=
           | "easel", "index" :: rest => ((rest.getLast?.getD "") ++ ".ssi", some []) :: s.files
           | _, _ => written.map (fun p => (p.1, some p.2)) ++ s.files
         ({ s with last := some out.toList, files := files }, "rc=0 out=" ++ hexOrDash (charsToBytes out.toList))
-      | none => ({ s with last := none }, "nopred")
+      | none =>
+        -- an index the reference cannot describe may have been written: later fetches from that file are not predicted
+        let files := if argv.contains "--index" then ((argv.getLast?.getD "") ++ ".ssi.unknown", some []) :: s.files else s.files
+        ({ s with last := none, files := files }, "nopred")
     | _, _ => (s, "bad-op")
   | "cat" :: _ =>
     match arg? ws "name" with
